@@ -392,14 +392,21 @@ def decide(rep, ctx, prog, tmo, tier):
             pe = model.eval(p_epoch, model_completion=True).as_long()
             try:
                 from checks.c17 import native_query
-                native["kernel"] = {"query": "epoch_gap %d %d" % (ce, pe), "has_gap_with": native_query(["epoch_gap %d %d" % (ce, pe)])[0]}
-                native["end_to_end"] = native_query(["chain_link %d" % (1 if pe > ce else 0)])[0]
-                reproduced = native["kernel"]["has_gap_with"] == "false" and pe not in (ce, ce - 1) and native["end_to_end"].startswith("accepted")
+                native["kernel"] = {"query": "epoch_gap %d %d" % (ce, pe), "has_gap_with": [l for l in native_query(["epoch_gap %d %d" % (ce, pe)]) if l in ("true", "false")][0]}
+                # battery of real bad links (real signatures, real hashes) through the real verifier: any acceptance reproduces
+                lines = [l for l in native_query(["chain_link %d" % i for i in range(0, 6)]) if l.startswith(("accepted", "rejected", "pending"))]
+                native["battery"] = {"0 honest link": lines[0], "1 re-targeted to following epoch": lines[1], "2 same epoch, foreign signer set": lines[2],
+                                     "3 previous epoch, foreign signer set": lines[3], "4 previous is genesis, foreign signer set": lines[4],
+                                     "5 same epoch, foreign signer set and parameters": lines[5]}
+                reproduced = lines[0].startswith("accepted") and any(l.startswith("accepted") for l in lines[1:])
             except Exception as e:
                 native["error"] = str(e)
             what = "link accepted with certificate.epoch=%d previous.epoch=%d (neither same nor immediately preceding); native: %s" % (ce, pe, native)
             if pe == ce + 1:
                 role = "c03-link-to-following-epoch"
+                ob.role = role
+            else:
+                role = "c03-link-accepts-unchained-key-or-parameters"
                 ob.role = role
         else:
             what = "clause %s fails: %s" % (name, str(md)[:300])
